@@ -5,6 +5,7 @@ import (
 	"fmt"
 	"math"
 	"math/big"
+	"strings"
 
 	"github.com/cockroachdb/apd/v3"
 
@@ -457,6 +458,32 @@ func c12Run(e *core.Env) {
 			}
 		}
 	}
+	nx, ny := powNearOne()
+	for i := range nx {
+		for j := range ny {
+			idx++
+			if !e.Mine(idx) {
+				continue
+			}
+			e.State()
+			for _, p := range []uint32{5, 9, 16, 34} {
+				run("Pow", nx[i], &ny[j], MkCtx(p, -6143, 6144, apd.RoundHalfEven, 0))
+			}
+		}
+	}
+}
+
+// powNearOne: bases 1 +- 10^-j with large integral exponents in both spellings (9E+5 and 900000): the
+// rounding error of repeated squaring grows with |y|, so the guard digits must grow with the exponent's magnitude.
+func powNearOne() (xs, ys []Operand) {
+	for _, s := range []string{"1.00001", "0.99999", "1.0000003", "1.001", "0.999", "1.000000001", "1.5", "0.5"} {
+		xs = append(xs, DecJ{Coef: strings.Replace(s, ".", "", 1), Exp: -int32(len(s) - strings.Index(s, ".") - 1)}.Op())
+	}
+	for _, j := range []DecJ{{Coef: "9", Exp: 5}, {Coef: "900000"}, {Coef: "3", Exp: 7}, {Coef: "30000000"}, {Coef: "1", Exp: 5}, {Coef: "100000"}, {Coef: "123456"}, {Coef: "1", Exp: 3}, {Coef: "1000"},
+		{Coef: "9", Exp: 5, Neg: true}, {Coef: "2", Exp: 6}, {Coef: "65536"}, {Coef: "65535"}, {Coef: "1", Exp: 2}, {Coef: "12", Exp: 1}, {Coef: "25", Exp: 3, Neg: true}} {
+		ys = append(ys, j.Op())
+	}
+	return
 }
 
 func c12Replay(kind string, raw json.RawMessage) string {
